@@ -178,12 +178,13 @@ def apiRun (a : DApi Int) (calls : List (ACall Int)) : Option (List Int × DApi 
         | some (a2, _, out, _) => some (D ++ out, a2)
       | .output len0 script => match a.output exK 0 exOwed 100 len0 script with
         | none => none
-        | some (a2, out, _) => some (D ++ out, a2)) (some ([], a))
+        | some (a2, out, _) => some (D ++ out, a2)
+      | .signalEnd => some (D, a.signalEnd exOwed)) (some ([], a))
 
 def callsOneshot : List (ACall Int) := [.process (some exXs) true none 100 []]
 def callsPush : List (ACall Int) :=
   [.process (some (exXs.take 7)) false (some 7) 2 [], .process (some ((exXs.drop 7).take 5)) false none 0 [],
-   .process (some (exXs.drop 12)) false none 3 [], .process none false none 1 [], .process none false none 100 []]
+   .process (some (exXs.drop 12)) false none 3 [], .signalEnd, .process (some []) false none 1 [], .process none false none 100 []]
 def callsPull : List (ACall Int) :=
   [.output 2 [.data (exXs.take 3), .data ((exXs.drop 3).take 1)], .output 100 [.data ((exXs.drop 4).take 9), .data (exXs.drop 13), .eof]]
 
